@@ -10,7 +10,7 @@ CONSTANTS HLEN
 VARIABLES hist, focus, done
 
 Cats == {"new", "login_good", "login_any", "owner_cmd", "any_cmd", "raw_good", "raw_any", "raw_owner",
-         "tun", "tick_small", "tick_edge", "opaque", "owner_data", "login_near", "spoof_data", "login_other"}
+         "tun", "tick_small", "tick_edge", "opaque", "owner_data", "login_near", "spoof_data", "login_other", "owner_c2c"}
 
 ActiveSlots == {u \in Slots : active[u]}
 
@@ -28,6 +28,8 @@ Cat(f) ==
               \/ \E o \in OptArgs : Options(host[u], u, o)
               \/ \E f2 \in FragArgs : SetFrag(host[u], u, f2) \/ FragProbe(host[u], u, f2)
       [] f = "owner_data" -> \E u \in ActiveSlots : \E d \in Dests : Data(host[u], u, d) \/ Ping(host[u], u)
+      \* client-to-client traffic between live sessions (the target may be busy: a packet in flight, others waiting)
+      [] f = "owner_c2c" -> \E u \in ActiveSlots : \E v \in ActiveSlots \ {u} : Data(host[u], u, v)
       [] f = "any_cmd" -> \E src \in Srcs, uid \in Uids :
               \/ IpReq(src, uid) \/ Ping(src, uid)
               \/ \E c \in CodecArgs : SwitchCodec(src, uid, c)
